@@ -561,7 +561,7 @@ pub fn honest_template(m: &'static Merchant, seed: u64) -> Result<Trace, String>
 }
 
 pub fn run(c: &mut Ctx) {
-    c.note("rule", json!("per merchant configuration and agreed (channel id, balances, context): every false (state, close state) witness of the deviation list x strategies {honest-but-lying, answer-as-if-agreed (per-relation), post-challenge choice of T-state / T-close / both / each revealed commitment scalar / C}; each attempt is submitted to the real initialize and the verifier's challenge is read through the hook. Distinct = distinct (strategy, field, balance class, witness name) whose hidden statement is false and that reached the verifier."));
+    c.note("rule", json!("per merchant configuration and agreed (channel id, balances, context): every false (state, close state) witness of the deviation list x strategies {honest-but-lying, answer-as-if-agreed (per-relation), post-challenge choice of T-state / T-close / both / each revealed commitment scalar / C}; each attempt is submitted to the real initialize and the verifier's challenge is read through the hook. Distinct = distinct (strategy, field, balance class, witness name) whose hidden statement is false and that reached the verifier. Added later: neighbouring-message checks on every issued signature, opposite-sign witnesses, the honest proof under a channel id differing in one bit. When the shadow control is refused but the library customer is accepted, the customer's closing signature is checked against the agreed message by the reference."));
     let nm = c.tier.pick(2usize, 12);
     let lat = balance_lattice();
     for mi in 0..nm {
